@@ -347,7 +347,7 @@ def _attr_read(ctx, ci, n, s, depth, seen) -> Set[str]:
     return set()
 
 
-def run_all(ctx: Ctx, modules: Iterable[str]) -> None:
+def run_all(ctx: Ctx, modules: Iterable[str], only=None) -> None:
     prog = ctx.prog
     fis: List[FunctionInfo] = []
     classes: List[ClassInfo] = []
@@ -361,6 +361,9 @@ def run_all(ctx: Ctx, modules: Iterable[str]) -> None:
             for fi in ci.methods.values():
                 if not (fi.overloads and fi.node in fi.overloads):
                     fis.append(fi)
+    if only is not None:
+        fis = [f for f in fis if only(f)]
+        classes = [c for c in classes if any(only(m) for m in c.methods.values())]
     check_calls(ctx, fis)
     check_misc(ctx, fis)
     check_module_init_order(ctx, classes)
